@@ -39,6 +39,8 @@ class C02(Check):
             ("pkg2", 3, 8 if Q else 10, P2, ("f",)),
             ("apply", 4, 7 if Q else 8, P2, ("f",)),
             ("apply2", 4, 8 if Q else 9, P2, ("f",)),
+            ("apply0", 4, 9 if Q else 10, P2, ("f",)),
+            ("fusionx", 5, 6 if Q else 8, qspaces.POOL_ARG3, ("f",)),
             ("full", 1, 5 if Q else 6, P2, ("f", "m")),
             ("fusion", 5, 7 if Q else 8, P3, ("f",)),
             ("binders", 5, 6 if Q else 7, P3, ("f",)),
@@ -57,15 +59,24 @@ class C02(Check):
                          {"generator": "pkgchains.chains (C14's packaging chains)", "stages": "2..3",
                           "binder_names": "every admissible assignment from pool ['e','j']"},
                          (lambda Q=Q: pkgchains.all_sources(Q)), runner="run_chain"))
+        out.append(Space("dupuse names=arg_N", {"generator": "pkgchains.dupuse re-named with the simplifier's own fresh-name shape",
+                                                 "binder_names": "every admissible assignment from pool arg_0..arg_" + ("1" if Q else "2")},
+                         pkgchains.dupuse, runner="run_chain_arg2" if Q else "run_chain_arg"))
         out.append(Space("dupuse", {"generator": "pkgchains.dupuse: one bound sequence used twice (called "
                                     "lambda positional/keyword, previous stage, packaged field)",
                                     "binder_names": "every admissible assignment from pool ['e','j']"},
                          pkgchains.dupuse, runner="run_chain"))
         return out
 
-    def run_chain(self, src):
+    def run_chain_arg(self, src):
+        return self.run_chain(src, qspaces.POOL_ARG3)
+
+    def run_chain_arg2(self, src):
+        return self.run_chain(src, qspaces.POOL_ARG)
+
+    def run_chain(self, src, pool=qspaces.POOL2):
         res = {"n": 0, "nt": [], "oc": [], "tags": {}, "viol": []}
-        for s in alpha.namings_src(src, qspaces.POOL2):
+        for s in alpha.namings_src(src, pool):
             r = self.run("pkgchains", s)
             res["n"] += r["n"]
             for k in ("nt", "oc", "viol"):
